@@ -177,6 +177,7 @@ def run(prog, chk):
             chk.fail("R20.4", fn, "flush-mode:%s" % (consts,), "%s calls History::flush(append=%s, unsaved_only=%s) at %s — not one of the reviewed modes "
                      "(append+unsaved-only, or truncate+all)" % ((fn,) + consts + (b.loc(t.line),)))
     position_cache_rule(prog, chk)
+    order_rule(prog, chk)
 
 
 POSITIONAL = ("Iterator::skip", "Iterator::take", "Iterator::step_by", "Iterator::nth", "Iterator::skip_while", "Iterator::take_while",
@@ -231,3 +232,146 @@ def position_cache_rule(prog, chk):
 
 def short_name(c):
     return c.rsplit("::", 2)[-2] + "::" + c.rsplit("::", 1)[-1] if c.count("::") >= 2 else c
+
+
+VECTOR_MUTATORS = ("push_back_mut", "push_front_mut", "push_back", "push_front", "set_mut", "set", "drop_last_mut", "drop_last", "insert", "insert_mut")
+
+
+def order_rule(prog, chk):
+    """R20.6: recording order and completeness of reload. (a) History::add appends (push_back_mut of the fresh id onto `items`) and
+    assigns a fresh id on every call (next_id = next_id + 1 unconditionally), so no recorded command replaces or precedes an earlier
+    one; (b) nothing else inserts into `items`; (c) History::import hands every line that is not a `#` comment to add — unchanged —
+    before the next line is read; (d) flush walks `items` itself, front to back."""
+    from dataflow import flow_back
+    chk.rule("R20.6", "add appends a fresh id; nothing else inserts into the item list; import adds every non-comment line unchanged; flush walks the list front to back")
+    ab = prog.impl_body(H + "::add")
+    if chk.anchor("R20.6", H + "::add", ab):
+        c = cfg_of(ab)
+        d = defs_of(ab)
+        pushes = [(bb, t) for bb, t in ab.calls() if (t.best_callee() or t.callee or "").endswith("Vector::push_back_mut")
+                  and any("items" in f.field_path() for f in flow_back(ab, d, t.args[0], all_args=False))]
+        others = [short_name(t.best_callee() or t.callee or "") for bb, t in ab.calls()
+                  if (t.best_callee() or t.callee or "").startswith("rpds::vector::") and (t.best_callee() or t.callee or "").rsplit("::", 1)[-1] in VECTOR_MUTATORS
+                  and not (t.best_callee() or t.callee or "").endswith("push_back_mut")]
+        st = field_stores(ab, "history::History", "next_id")
+        inc_ok = False
+        for bb, i, s_ in st:
+            for o in origins(ab, d, s_.rv.ops[0], through_ops=True) if s_.rv.ops else []:
+                pass
+            fl = flow_back(ab, d, s_.rv.ops[0], all_args=True) if s_.rv.ops else []
+            if any("next_id" in f.field_path() for f in fl) and any(f.kind == 'const' for f in fl) and all(c.dominates(bb, r) for r in c.return_blocks()):
+                inc_ok = True
+        if len(pushes) == 1 and not others and all(c.dominates(pushes[0][0], r) for r in c.return_blocks()):
+            idf = flow_back(ab, d, pushes[0][1].args[1], all_args=False)
+            # `item.id = id` is a store into a field of the by-value argument: follow it
+            for f in list(idf):
+                if f.kind == 'arg' and "id" in f.field_path():
+                    for bl in ab.blocks:
+                        for s_ in bl.stmts:
+                            if s_.kind == 'a' and s_.place.local == f.local and [p[3] for p in s_.place.proj if p[0] == 'f'] == ["id"] and s_.rv.ops:
+                                idf += flow_back(ab, d, s_.rv.ops[0], all_args=False)
+            if any("next_id" in f.field_path() for f in idf):
+                chk.ok("R20.6", "add-appends-fresh-id", "items.push_back_mut(next_id) dominates the return", function=ab.name)
+            else:
+                chk.fail("R20.6", ab.name, "appended-id-not-fresh", "History::add appends an id that does not come from next_id (a caller-supplied id can collide with an "
+                         "existing entry and replace its command)")
+        else:
+            chk.fail("R20.6", ab.name, "add-does-not-append", "History::add no longer appends exactly one id at the back of the item list on every path "
+                     "(push_back_mut sites: %d, other vector mutators: %s): recording order is not the order of the file" % (len(pushes), others))
+        if inc_ok:
+            chk.ok("R20.6", "id-incremented-always", "next_id = next_id + 1 dominates the return", function=ab.name)
+        else:
+            chk.fail("R20.6", ab.name, "id-not-incremented-always", "next_id is not incremented on every path of History::add: two commands can share an id, the second "
+                     "replaces the first in the map and the command appears twice (or not at all) when saved")
+    # (b) WHO inserts into items
+    n = 0
+    for b in prog.all_bodies({"brush_core"}):      # `items` is private to brush_core::history
+        fn = owner(b.name)
+        if not fn.startswith("brush_core::history::"):
+            continue
+        d = None
+        for bb, t in b.calls():
+            cal = t.best_callee() or t.callee or ""
+            if not (cal.startswith("rpds::vector::") and cal.rsplit("::", 1)[-1] in VECTOR_MUTATORS) or not t.args:
+                continue
+            d = d or defs_of(b)
+            if not any("items" in f.field_path() and any(canon(p[2]).endswith("history::History") for p in f.path if p[0] == 'f')
+                       for f in flow_back(b, d, t.args[0], all_args=False)):
+                continue
+            n += 1
+            if fn == H + "::add" and cal.endswith("push_back_mut"):
+                continue
+            chk.fail("R20.6", fn, "inserts-into-item-list:" + cal.rsplit("::", 1)[-1], "%s changes History.items through %s (%s): only History::add may insert, and only at the back"
+                     % (fn, short_name(cal), b.loc(t.line)))
+    chk.floor("R20.6", "insertions into History.items", n, 1)
+    # (c) import
+    ib = prog.impl_body(H + "::import")
+    if chk.anchor("R20.6", H + "::import", ib):
+        c = cfg_of(ib)
+        d = defs_of(ib)
+        adds = [bb for bb, t in ib.calls() if (t.best_callee() or "").endswith("History::add")]
+        strips = [(bb, t) for bb, t in ib.calls() if (t.best_callee() or t.callee or "").endswith("str::strip_prefix")]
+        loops = c.source_loops()
+        ok = False
+        for sb, stt in strips:
+            sw = ib.blocks[stt.target].term
+            if sw.kind != "switch":
+                continue
+            none_edge = sw.otherwise if any(v == 1 for v, _ in sw.targets) else [tg for v, tg in sw.targets if v == 0][0]
+            loop = [(h, blks) for h, blks in loops.items() if sb in blks]
+            if not loop:
+                continue
+            h, blks = loop[0]
+            latch = [x for x in blks if h in c.succ[x]]
+            exits = latch + [r for r in c.return_blocks()]
+            w = c.escapes(none_edge, adds, exits, after=False, avoid=c.error_exit_blocks())
+            if adds and w is None:
+                ok = True
+            else:
+                chk.fail("R20.6", ib.name, "line-not-added-on-some-path", "History::import reads a line that is not a `#` comment and goes on to the next line without adding it "
+                         "(via line %s): reloading does not yield the saved sequence" % [ib.blocks[x].term.line for x in (w or [])][-2:])
+        if ok:
+            chk.ok("R20.6", "import-adds-every-command-line", "every path from the not-a-comment edge to the next iteration passes History::add", function=ib.name)
+        elif not strips:
+            chk.fail("R20.6", ib.name, "comment-test-missing", "History::import no longer tests for the `#` prefix with strip_prefix")
+        # command_line is the line itself
+        good = bad = 0
+        for bl in ib.blocks:
+            for s_ in bl.stmts:
+                if s_.kind == 'a' and s_.rv.kind == 'agg' and (s_.rv.adt or "").endswith("history::Item"):
+                    names = s_.rv.raw.get("fn") or []
+                    if "command_line" not in names:
+                        continue
+                    fl = flow_back(ib, d, s_.rv.ops[names.index("command_line")], all_args=False)
+                    vias = {v for f in fl for v in f.via}
+                    extra = sorted(v for v in vias if not v.endswith(("Iterator>::next", "Iterator::next", "IntoIterator>::into_iter", "IntoIterator::into_iter", "BufRead::lines", "BufReader::new", "Try>::branch")))
+                    if extra:
+                        bad += 1
+                        chk.fail("R20.6", ib.name, "imported-line-transformed", "History::import stores a transformed line (%s) as the command: what is reloaded differs from what was saved"
+                                 % [short_name(x) for x in extra][:3])
+                    else:
+                        good += 1
+        if good and not bad:
+            chk.ok("R20.6", "imported-line-verbatim", "Item.command_line is the line as read", function=ib.name)
+        elif not good and not bad:
+            chk.fail("R20.6", ib.name, "import-item-missing", "no history::Item aggregate with a command_line found in History::import")
+    # (d) flush iterates items directly
+    fb = prog.impl_body(H + "::flush")
+    if fb is not None:
+        d = defs_of(fb)
+        c = cfg_of(fb)
+        its = [(bb, t) for bb, t in fb.calls() if (t.best_callee() or t.callee or "").endswith(("IntoIterator>::into_iter", "IntoIterator::into_iter"))]
+        good = False
+        for bb, t in its:
+            fl = flow_back(fb, d, t.args[0], all_args=False)
+            if any("items" in f.field_path() for f in fl):
+                extra = sorted(v for v in ({v for f in fl for v in f.via} - {t.best_callee() or t.callee})
+                               if not v.endswith(("Vector::iter", "Deref>::deref", "IntoIterator>::into_iter", "IntoIterator::into_iter", "Iterator::by_ref")))
+                if not extra:
+                    good = True
+                else:
+                    chk.fail("R20.6", fb.name, "flush-order-adapted", "History::flush walks the item list through %s: the file is not written in recording order" % [short_name(x) for x in extra][:3])
+        if good:
+            chk.ok("R20.6", "flush-walks-items-in-order", "`for item_id in &self.items`", function=fb.name)
+        elif not its:
+            chk.fail("R20.6", fb.name, "flush-loop-missing", "no iteration over History.items in flush")
